@@ -462,6 +462,112 @@ impl TcpSim {
         }
     }
 
+    /// Second connection on the *same* two sockets (socket reuse): after a completed run TIME-WAIT
+    /// is left to expire over a plain reliable wire, then both sockets are reconfigured and opened
+    /// again with a new stream, new faults and new per-connection oracle state.  Virtual time and
+    /// the interfaces (neighbor caches, ISN generators) continue.  Returns false if the sockets
+    /// did not both reach CLOSED (then nothing was changed that matters and the case ends).
+    pub fn reincarnate(&mut self, rng: &mut Rng, case_tag: u64, thorough: bool, incarnation: u16) -> bool {
+        if !self.stats.completed || self.fatal || !self.violations.is_empty() {
+            return false;
+        }
+        self.queue.clear();
+        let mut closed = false;
+        for _ in 0..80 {
+            self.now += 500_000;
+            for _round in 0..20 {
+                let mut moved = false;
+                for i in 0..2 {
+                    let out = self.hosts[i].poll(self.now);
+                    for f in out.tx {
+                        self.hosts[1 - i].dev.rx.push_back(f.data);
+                        moved = true;
+                    }
+                }
+                if !moved {
+                    break;
+                }
+            }
+            if self.sock(0).state() == tcp::State::Closed && self.sock(1).state() == tcp::State::Closed {
+                closed = true;
+                break;
+            }
+        }
+        if !closed {
+            return false;
+        }
+        let base = self.now + 1_000;
+        let old = self.cfg.clone();
+        let mut c2 = random_cfg(rng, thorough);
+        c2.v6 = old.v6;
+        c2.ethernet = old.ethernet;
+        c2.mtu = old.mtu;
+        for i in 0..2 {
+            c2.ep[i].rx_buf = old.ep[i].rx_buf;
+            c2.ep[i].tx_buf = old.ep[i].tx_buf;
+            c2.ep[i].seed = old.ep[i].seed;
+        }
+        for i in 0..2 {
+            let lim = ((c2.ep[i].tx_buf.min(c2.ep[1 - i].rx_buf)) as u64).saturating_mul(300).max(2000);
+            c2.ep[i].total = c2.ep[i].total.min(lim);
+        }
+        if c2.hostile_until > 0 {
+            c2.hostile_until += base;
+        }
+        for e in c2.ep.iter_mut() {
+            for p in e.read_pauses.iter_mut() {
+                p.0 += base;
+                p.1 += base;
+            }
+        }
+        for i in 0..2 {
+            let e = c2.ep[i].clone();
+            let s = self.sock(i);
+            s.set_congestion_control(match e.cc {
+                0 => tcp::CongestionControl::None,
+                1 => tcp::CongestionControl::Reno,
+                _ => tcp::CongestionControl::Cubic,
+            });
+            s.set_nagle_enabled(e.nagle);
+            s.set_ack_delay(e.ack_delay_ms.map(Duration::from_millis));
+            s.set_tsval_generator(if e.timestamps { Some(tsgen) } else { None });
+        }
+        let lport = 49152 + incarnation;
+        if self.sock(1).listen(80).is_err() {
+            return false;
+        }
+        {
+            let a1 = self.addrs[1].to_smol();
+            let h = &mut self.hosts[0];
+            let cx = h.iface.context();
+            if h.sockets.get_mut::<tcp::Socket>(self.handles[0]).connect(cx, IpEndpoint::new(a1, 80), lport).is_err() {
+                return false;
+            }
+        }
+        let t = tags(case_tag);
+        let ip_mtu = c2.mtu - if c2.ethernet { 14 } else { 0 };
+        self.smon = [
+            SenderMon::new(t[0], self.addrs[0], self.addrs[1], lport, 80, ip_mtu, c2.ep[0].rx_buf),
+            SenderMon::new(t[1], self.addrs[1], self.addrs[0], 80, lport, ip_mtu, c2.ep[1].rx_buf),
+        ];
+        for i in 0..2 {
+            self.apps[i] = App { written: 0, delivered: 0, close_called: false, close_at: None, next_at: base, finished: false, idle_backoff: 1000 + i as i64 };
+        }
+        self.now = base;
+        self.wake = [Some(base), Some(base)];
+        self.max_seq_end = [None, None];
+        self.rcv_contig = [None, None];
+        self.iss = [None, None];
+        self.last_no_progress_at = [-1, -1];
+        self.progress_sig = (0, 0, 0, 0, 255, 255);
+        self.progress_at = base;
+        self.no_progress_count = [0, 0];
+        self.stats.completed = false;
+        self.stats.events = 0;
+        self.cfg = c2;
+        true
+    }
+
     fn tag(&self, i: usize) -> u64 {
         self.smon[i].tag
     }
